@@ -236,6 +236,200 @@ def status_assigned(ctx, rule='status-assigned-on-every-path'):
                   'a path that ran the iteration leaves compute_with_guess() without assigning the status', path=w_b)
 
 
+ORTHO_HELPERS = ('twice_is_enough_orthogonalisation', 'JensWehner_orthogonalisation', 'QR_orthogonalisation', 'MGS_orthogonalisation', 'GS_orthogonalisation')
+
+
+def basis_orthonormal(ctx, rule='search-space-basis-orthonormal'):
+    """The Rayleigh-Ritz step solves the STANDARD small problem V'AV y = theta y and reports x = V y: that is a Ritz pair of A,
+    with ||x|| = ||y|| = 1, only for an orthonormal V.  With a non-orthonormal or rank-deficient V (a caller-supplied initial space;
+    the property names non-orthonormal ones) V'AV has spurious eigenvalues whose vectors satisfy V y = 0: zero-norm "eigenvectors"
+    with zero residual, accepted as converged.  Typestate over the writers of the basis field: each must leave it orthonormal --
+    (a) assigned from a parameter: followed on every path by a whole-matrix orthonormalisation (left_cols_to_skip = 0);
+    (b) restart: assigned the leading Ritz vectors V Y of the previous (orthonormal) basis, Y orthonormal eigenvectors of a
+        symmetric matrix (assumption on SelfAdjointEigenSolver);
+    (c) append: new columns appended, then orthonormalised against the old ones and among themselves
+        (left_cols_to_skip = number of old columns).
+    Any other writer is reported."""
+    from . import paths
+    fns = [f for f in ctx.F.concrete() if f.cls == 'Spectra::SearchSpace' and f.cfg]
+    if not fns:
+        raise AnalysisBroken('SearchSpace is not instantiated')
+    recs = sorted(set(f.record for f in fns))
+    n = 0
+    for rec in recs:
+        ms = [f for f in fns if f.record == rec]
+        fields = [r for r in ctx.F.records.values() if r['qname'] == rec and not r['dep']][0]['fields']
+        basis = [f['name'] for f in fields if 'basis_vectors' in f['name']]
+        if len(basis) != 1:
+            raise AnalysisBroken('%s: basis field not identified' % rec)
+        B = basis[0]
+        for fn in ms:
+            if fn.d.get('ctor') or fn.d.get('dtor'):
+                continue
+            writes = []
+            for a in ctx.E.of(fn).accesses:
+                if a.mode == 'w' and a.path == (B,):
+                    nd = fn.nodes[a.node]
+                    if nd['k'] == 'CallExpr' and nd.get('callee') in ORTHO_HELPERS:
+                        continue          # the orthonormalisation itself
+                    writes.append(nd)
+            if not writes:
+                continue
+            inst = 'SearchSpace::%s' % fn.name
+            pn = [fn.locals[v]['name'] for v in fn.params]
+
+            def ortho_calls(skip_pred):
+                out = []
+                for c in fn.walk():
+                    if c['k'] == 'CallExpr' and c.get('callee') in ORTHO_HELPERS:
+                        a = fn.call_args(c)
+                        if a and fn.field_name(fn.strip(a[0])) == B and skip_pred(a[1] if len(a) > 1 else None):
+                            out.append(c)
+                return out
+            n += 1
+            whole = [w for w in writes if w['k'] in ('CXXOperatorCallExpr', 'BinaryOperator') and w.get('op') == '=' and sym(fn, w, inline=False)[1] == ('F', B)]
+            srcs = [sym(fn, w, inline=False)[2] for w in whole]
+            if whole and all(isinstance(t, tuple) and t[0] == 'P' for t in srcs):
+                # (a) from a parameter: must be orthonormalised as a whole afterwards
+                def is_zero(a):
+                    return a is None or a['k'] == 'CXXDefaultArgExpr' or sym(fn, a, inline=False) == ('lit', '0')
+                oc = ortho_calls(is_zero)
+                ids = set(c['id'] for c in oc)
+                hit = paths.search(fn, [fn.pos_of(w) for w in whole], stop=lambda n_: n_['id'] in ids, target=lambda n_: n_['k'] == 'ReturnStmt',
+                                   exit_is_target=lambda b: True, normal_only=True)
+                ok = bool(oc) and hit is None
+                ctx.check(ok, rule, inst, fn.qname,
+                          'the basis taken from the argument `%s` is orthonormalised as a whole before the member returns' % srcs[0][1] if ok else
+                          'the basis is assigned from the argument `%s` and used as it is: for a non-orthonormal or rank-deficient initial space (which the caller may supply) the small '
+                          'problem V\'AV y = theta y has spurious solutions with V y = 0 -- zero-norm vectors with zero residual that pass the convergence test, so Successful is reported '
+                          'with values that are not eigenvalues' % srcs[0][1])
+            elif whole and all(isinstance(t, tuple) and 'ritz_vectors' in show(t) and 'leftCols' in show(t) for t in srcs):
+                ctx.ok(rule, inst, fn.qname, 'restart: leading Ritz vectors of the previous orthonormal basis (orthonormal eigenvectors of the symmetric small problem)')
+            elif not whole:
+                # (c) append: some member on this path must orthonormalise the appended columns against the old ones; accept the
+                # appending helper itself only if every caller does
+                callers = [(g, c) for g in ms for c in g.walk() if c['k'] == 'CXXMemberCallExpr' and c.get('callee') == fn.name and g is not fn]
+                probs = []
+                if not callers:
+                    probs.append('%s changes the basis in place and nobody orthonormalises it' % fn.name)
+                for g, c in callers:
+                    after = [o for o in g.walk() if o['k'] == 'CallExpr' and o.get('callee') in ORTHO_HELPERS and g.field_name(g.strip(g.call_args(o)[0])) == B]
+                    ids = set(o['id'] for o in after)
+                    hit = paths.search(g, [g.pos_of(c)], stop=lambda n_: n_['id'] in ids, target=lambda n_: n_['k'] == 'ReturnStmt', exit_is_target=lambda b: True, normal_only=True)
+                    good = bool(after) and hit is None
+                    # the number of columns to skip is the size before the append
+                    for o in after:
+                        a = g.call_args(o)
+                        t = sym(g, a[1]) if len(a) > 1 and a[1]['k'] != 'CXXDefaultArgExpr' else None
+                        if t is None or 'size' not in show(t) and 'cols' not in show(t):
+                            good = False
+                        elif not paths.dominated_by(g, g.pos_of(c), lambda n_, a1=a[1]: n_['k'] == 'DeclStmt' and any(y['k'] == 'DeclRefExpr' and y.get('var') == n_['decls'][0].get('var') for y in g.walk(a1['id']))):
+                            good = False
+                    if not good:
+                        probs.append('%s appends columns through %s without orthonormalising them against the columns present before the append' % (g.name, fn.name))
+                ctx.check(not probs, rule, inst, fn.qname, 'appended columns are orthonormalised against the old ones by every caller (%s)' % ', '.join(sorted(set(g.name for g, _ in callers)))
+                          if not probs else '; '.join(probs))
+            else:
+                ctx.fail(rule, inst, fn.qname, '%s assigns the basis from %s: not one of the orthonormality-preserving forms' % (fn.name, [show(t)[:40] for t in srcs]))
+    if n < 3:
+        raise AnalysisBroken('only %d writers of the search-space basis found (initialise, restart, append confirmed)' % n)
+
+
+def search_space_not_wider_than_matrix(ctx, rule='rayleigh-ritz-basis-fits-the-matrix'):
+    """A basis with more columns than the matrix has rows cannot be orthonormal: the Rayleigh-Ritz step on it has solutions with
+    V y = 0, zero-norm vectors with zero residual that pass the convergence test.  Two structural conditions keep the basis that
+    reaches the Rayleigh-Ritz step within n columns: (1) every writer of the maximal search-space size leaves it clamped to the
+    operator's dimension (the constructor does it through initialize(); a setter must too); (2) inside the iteration the
+    Rayleigh-Ritz step is preceded, on every path from the loop condition, by the restart test `size() > maximal size`
+    (a basis that outgrew the maximum is collapsed before it is used)."""
+    from . import paths
+    bases = [f for f in ctx.F.concrete() if f.cls == 'Spectra::JDSymEigsBase' and f.cfg]
+    if not bases:
+        raise AnalysisBroken('JDSymEigsBase is not instantiated')
+    recs = sorted(set(f.record for f in bases))
+    n = 0
+    for rec in recs[:2]:
+        ms = [f for f in bases if f.record == rec]
+        fields = [r for r in ctx.F.records.values() if r['qname'] == rec and not r['dep']][0]['fields']
+        mx = [f['name'] for f in fields if 'max' in f['name'] and 'search_space' in f['name']]
+        if len(mx) != 1:
+            raise AnalysisBroken('%s: maximal search-space size field not identified' % rec)
+        MX = mx[0]
+        # (1) writers
+        clampers = set()
+        for fn in ms:
+            for x in fn.walk():
+                if x['k'] == 'IfStmt':
+                    c = sym(fn, x['cond'], inline=False)
+                    if c[0] in ('<', '<=') and ('F', MX) in c[1:] and any('cols' in show(u) or 'rows' in show(u) for u in c[1:]):
+                        asg = [y for y in fn.walk(x['then']) if y['k'] == 'BinaryOperator' and y.get('op') == '=' and sym(fn, y['c'][0], inline=False) == ('F', MX)]
+                        if asg and ('cols' in show(sym(fn, asg[0]['c'][1], inline=False)) or 'rows' in show(sym(fn, asg[0]['c'][1], inline=False))):
+                            clampers.add(fn.name)
+        if not clampers:
+            raise AnalysisBroken('%s: no member clamps %s to the operator dimension' % (rec, MX))
+        for fn in ms:
+            writes = [x for x in fn.walk() if x['k'] == 'BinaryOperator' and x.get('op') == '=' and sym(fn, x['c'][0], inline=False) == ('F', MX)]
+            inits = [i for i in fn.inits if i['member'] == MX and i['expr'] >= 0] if fn.d.get('ctor') else []
+            if fn.name in clampers or (not writes and not inits):
+                continue
+            n += 1
+            inst = 'JDSymEigsBase::%s/%s' % (fn.name, MX)
+            calls = [c for c in fn.walk() if c['k'] == 'CXXMemberCallExpr' and c.get('callee') in clampers]
+            ok = False
+            if inits and not writes:
+                # constructor: the body runs after the initialiser list; the clamping member must be called on every normal path
+                if any(i['member'] == '<delegating>' for i in fn.inits):
+                    ok = True
+                else:
+                    ids = set(c['id'] for c in calls)
+                    ok = bool(calls) and paths.search(fn, [], stop=lambda n_: n_['id'] in ids, target=lambda n_: n_['k'] == 'ReturnStmt', include_entry=True,
+                                                      exit_is_target=lambda b: True, normal_only=True) is None
+            else:
+                ids = set(c['id'] for c in calls)
+                ok = bool(writes) and all(
+                    'min' in show(sym(fn, w['c'][1], inline=False)) and any(t_ in show(sym(fn, w['c'][1], inline=False)) for t_ in ('cols', 'rows')) or
+                    (bool(calls) and paths.search(fn, [fn.pos_of(w)], stop=lambda n_: n_['id'] in ids, target=lambda n_: n_['k'] == 'ReturnStmt',
+                                                  exit_is_target=lambda b: True, normal_only=True) is None)
+                    for w in writes)
+            ctx.check(ok, rule, inst, fn.qname,
+                      'the maximal search-space size is clamped to the operator dimension after this write (%s)' % ', '.join(sorted(clampers)) if ok else
+                      '%s stores the maximal search-space size unclamped (the constructor clamps it to n through %s): with a maximum above n the basis grows wider than the matrix, '
+                      'the Rayleigh-Ritz step gets solutions V y = 0 and Successful is reported with zero-norm eigenvectors' % (fn.name, ', '.join(sorted(clampers))))
+        # (2) the restart test precedes the Rayleigh-Ritz step in every iteration
+        for fn in ms:
+            if fn.name != 'compute_with_guess':
+                continue
+            loops = [lp for lp in fn.walk() if lp['k'] == 'ForStmt' and any(c['k'] == 'CXXMemberCallExpr' and c.get('callee') == 'compute_eigen_pairs' for c in fn.walk(lp['body']))]
+            if len(loops) != 1:
+                raise AnalysisBroken('%s: iteration loop not identified' % fn.qname)
+            lp = loops[0]
+            rr = [c for c in fn.walk(lp['body']) if c['k'] == 'CXXMemberCallExpr' and c.get('callee') == 'compute_eigen_pairs']
+            tests = []
+            for x in fn.walk(lp['body']):
+                if x['k'] == 'IfStmt':
+                    c = sym(fn, x['cond'])
+                    if c[0] in ('<', '<=') and c[1] == ('F', MX) and 'size' in show(c[2]) and \
+                            any(y['k'] == 'CXXMemberCallExpr' and y.get('callee') == 'restart' for y in fn.walk(x['then'])):
+                        tests.append(x)
+            n += 1
+            cpos = fn.pos_of(fn.nodes[lp['cond']])
+            tids = [t['cond'] for t in tests]
+            hit = paths.search(fn, [cpos], stop=lambda n_: any(fn.within(n_, t_) for t_ in tids), target=lambda n_: n_['id'] == rr[0]['id']) if tests and cpos else ['no restart test']
+            # ... and the collapse is not followed by an extension before the step
+            ext = None
+            if tests:
+                ext = paths.search(fn, [fn.pos_of(fn.nodes[t['cond']]) for t in tests if fn.pos_of(fn.nodes[t['cond']])],
+                                   stop=lambda n_: n_['id'] == rr[0]['id'] or fn.within(n_, lp['inc']),
+                                   target=lambda n_: n_['k'] == 'CXXMemberCallExpr' and n_.get('callee') == 'extend_basis')
+            ok = hit is None and ext is None
+            ctx.check(ok, rule, 'JDSymEigsBase::compute_with_guess/restart-before-rayleigh-ritz', fn.qname,
+                      'in every iteration the test `size() > %s` (which collapses the basis) is passed before the Rayleigh-Ritz step, with no extension in between' % MX if ok else
+                      'the Rayleigh-Ritz step can run on a basis that has outgrown the maximal size (the restart test does not precede it in every iteration%s): the basis can then have '
+                      'more columns than the matrix has rows' % ('; the basis is extended between the test and the step' if ext is not None else ''))
+    if n < 3:
+        raise AnalysisBroken('only %d obligations about the search-space size' % n)
+
+
 def run(ctx):
     from . import hygiene
     hygiene.noalias_destination_not_in_product(ctx, scope=lambda fn: fn.cls in ('Spectra::SearchSpace', 'Spectra::RitzPairs', 'Spectra::JDSymEigsBase', 'Spectra::DavidsonSymEigsSolver'), min_instances=1)
@@ -243,3 +437,5 @@ def run(ctx):
     ritz_pairs_rules(ctx)
     correction_guard(ctx)
     status_assigned(ctx)
+    basis_orthonormal(ctx)
+    search_space_not_wider_than_matrix(ctx)
